@@ -34,7 +34,7 @@ def correspondence(tier, rng):
 def oracle(tier, rng, deep=False):
     failures = []
     ev = nontriv = 0
-    nrep = 1 if tier == "quick" and not deep else 6
+    nrep = 1 if tier == "quick" and not deep else (3 if tier == "quick" else 6)   # quick + broken obligation: 3x the quick search
     for _ in range(nrep):
         for spec in compos.menu(rng):
             site = f"{spec['solver']}:{spec['datafit']}:{spec['penalty']}"
